@@ -10,7 +10,7 @@ From WV Require Import Model.ChanPipe Proof.ChanPipeBase Proof.ChanPipeOwn Proof
 Import ListNotations.
 
 Definition P_two : params :=
-  {| p_look := 0; p_sb := 1%Z; p_clen := 25; p_nw := 1;
+  {| p_look := 0; p_sb := 1%Z; p_clen := 25; p_nw := 1; p_unlocked := false;
      p_script := [ {| r_expect := false; r_nobody := false; r_writes := [93; 1]; r_close := false |};
                    {| r_expect := false; r_nobody := false; r_writes := [93; 1]; r_close := false |} ] |}.
 
@@ -33,10 +33,10 @@ Definition sched_two : list choice :=
   [CIo (ESel false false)] ++
   repeat (CIo ENone) 7.
 
-(* the premises of C04_wire_partial / C04_complete hold: no worker-side send_continue, the
-   connection is open, nobody is inside a task *)
+(* the premises of C04_wire / C04_complete hold: the current shape of handle_write, the connection
+   is open, nobody is inside a task *)
 Example two_premises :
-  wsc (sh (run P_two sched_two)) = false /\ connected (sh (run P_two sched_two)) = true /\
+  p_unlocked P_two = false /\ connected (sh (run P_two sched_two)) = true /\
   in_task (wpc (wk (run P_two sched_two) 0)) = false.
 Proof. vm_compute. auto. Qed.
 
@@ -61,6 +61,8 @@ Proof. vm_compute. auto. Qed.
 Example two_quiescent : all_parked 1 (run P_two sched_two) = true.
 Proof. vm_compute. reflexivity. Qed.
 
-(* the refutation witness is in the excluded class, the example above is not *)
-Example classes : wsc (sh (run P18 sched18)) = true /\ wsc (sh (run P_two sched_two)) = false.
+(* a worker-side send_continue is inside the proved statement now: the F18 schedule on the repaired
+   shape contains one, and the wire statement holds *)
+Example f18_fixed_in_scope :
+  wsc (sh (run P18_fixed sched18)) = true /\ wire_ok P18_fixed (run P18_fixed sched18) = true.
 Proof. vm_compute. auto. Qed.
